@@ -173,6 +173,71 @@ def run_program_adaptive(r, length, keys, maxheap):
     return trace
 
 
+def run_program_thinning(r, n_items, maxheap):
+    """Directed run suggested by the mechanism model: a tree keeps its degree when only grandchildren (and deeper
+    nodes) are cut, one per parent, so its size can fall far below 2^degree - the regime in which any bound on
+    root degrees derived from the heap size matters.  Push n items, pop once (consolidation), then remove non-root
+    nodes whose parent is unmarked and is not a root, as long as there are any; then drain with pops."""
+    from graphtage.fibonacci import ReversedComparator  # noqa
+    heap = _heap(maxheap)
+    nodes, trace = {}, []
+    try:
+        with deadline(20.0):
+            for i in range(1, n_items + 1):
+                k = (n_items - i) if maxheap else i
+                nodes[i] = heap.push(Item(i, k))
+                trace.append({"op": "push", "id": i, "key": k, "len": len(heap), "truth": bool(heap)})
+            live = set(nodes)
+
+            def pop():
+                it = heap.pop()
+                i = getattr(it, "id", -1)
+                key = _plain_key(nodes[i], maxheap) if i in nodes else -1
+                trace.append({"op": "pop", "id": i, "key": key, "len": len(heap), "truth": bool(heap)})
+                live.discard(i)
+            pop()
+            def big_root():
+                best = None
+                for i in live:
+                    nd = nodes[i]
+                    if nd.parent is None and (best is None or nd.degree > best.degree):
+                        best = nd
+                return best
+
+            def keeps_degree(nd, root):
+                """Would removing nd (with its cascading cuts) leave every child of `root` in place?"""
+                if nd is root or nd.parent is None:
+                    return False
+                x, y = nd, nd.parent
+                while True:
+                    if y is root:
+                        return False          # x would be cut from the root
+                    if y.parent is None or not y.mark:
+                        return True           # the chain stops here (y is a root or only gets marked)
+                    x, y = y, y.parent        # y is marked: it is cut from its parent as well
+            while True:
+                root = big_root()
+                if root is None or root.degree < 3:
+                    break
+                cands = [i for i in sorted(live) if keeps_degree(nodes[i], root)]
+                if not cands:
+                    break
+                leaves = [i for i in cands if nodes[i].child is None]
+                pool = leaves or cands
+                i = pool[-1] if r.random() < 0.7 else r.choice(pool)
+                key = _plain_key(nodes[i], maxheap)
+                heap.remove(nodes[i])
+                live.discard(i)
+                trace.append({"op": "rem", "id": i, "key": key, "len": len(heap), "truth": bool(heap)})
+            while live:
+                pop()
+    except Expired:
+        trace.append({"op": "raise", "exc": "watchdog: operation did not terminate"})
+    except Exception as ex:
+        trace.append({"op": "raise", "exc": "%s: %s" % (type(ex).__name__, str(ex)[:200])})
+    return trace
+
+
 def helper_traces(r, n_cases):
     """utils.smallest / utils.largest expressed as PQ histories: push everything, then the results as pops.
 
@@ -331,6 +396,13 @@ def run():
         chk.count(("rand", i, mh, len(trace)))
         batches[mh].append((trace, {"kind": "random", "index": i, "keys": len(keys)}))
     chk.sample({"kind": "random run (first 12 events)", "events": batches[False][-1][0][:12]})
+
+    # 4b. thinning runs (directed by the structure of the real heap: degree kept, size shrunk)
+    for n_items in ((9, 17, 33, 34, 40, 65) if t == "quick" else (9, 17, 33, 34, 40, 65, 66, 100, 129, 130, 200, 257)):
+        for mh in (False, True):
+            trace = run_program_thinning(r, n_items, mh)
+            chk.count(("thin", n_items, mh))
+            batches[mh].append((trace, {"kind": "thinning", "items": n_items}))
 
     # 5. smallest / largest helpers
     for mh, trace, origin in helper_traces(rng("c16h"), 150 if t == "quick" else 1500):
